@@ -257,3 +257,148 @@ Definition covariance_int (x y : list Z) : Z :=
   let sxy := in_prod (map (fun a => a * n - sx) x) (map (fun b => b * n - sy) y) in
   let d := n * n * (n - 1) in
   (sxy + d / 2) / d.
+
+(** * Proofs *)
+Require Import ZifyBool.
+Ltac Zify.zify_post_hook ::= Z.div_mod_to_equations.
+
+(** ** _isqrt *)
+Lemma isqrt_loop_S : forall c a r r2 j,
+  isqrt_loop (S c) a r r2 j =
+  if r2 + (2 * r + j) * j <=? a then isqrt_loop c a (r + j) (r2 + (2 * r + j) * j) (Z.shiftr j 1)
+  else isqrt_loop c a r r2 (Z.shiftr j 1).
+Proof. reflexivity. Qed.
+
+Lemma isqrt_loop_ok : forall (c : nat) (a r r2 j : Z),
+  0 <= r -> r2 = r * r -> (c <> O -> j = 2 ^ (Z.of_nat c - 1)) ->
+  r * r <= a < (r + 2 ^ Z.of_nat c) * (r + 2 ^ Z.of_nat c) ->
+  let R := isqrt_loop c a r r2 j in R * R <= a < (R + 1) * (R + 1).
+Proof.
+  induction c as [|c IH]; intros a r r2 j Hr Hr2 Hj Ha; cbn zeta.
+  - simpl. simpl in Ha. exact Ha.
+  - assert (Hj' : j = 2 ^ Z.of_nat c).
+    { rewrite Hj by discriminate. f_equal. lia. }
+    assert (Hpow : 2 ^ Z.of_nat (S c) = 2 * j).
+    { rewrite Nat2Z.inj_succ, Z.pow_succ_r by lia. lia. }
+    rewrite Hpow in Ha.
+    assert (Hjpos : 0 < j) by (subst j; apply Z.pow_pos_nonneg; lia).
+    assert (Hnext : c <> O -> Z.shiftr j 1 = 2 ^ (Z.of_nat c - 1)).
+    { intros Hc. rewrite Z.shiftr_div_pow2 by lia. rewrite Hj'.
+      replace (Z.of_nat c) with (Z.succ (Z.of_nat c - 1)) at 1 by lia.
+      rewrite Z.pow_succ_r by lia. change (2 ^ 1) with 2.
+      rewrite Z.mul_comm, Z.div_mul by lia. reflexivity. }
+    rewrite isqrt_loop_S.
+    destruct (r2 + (2 * r + j) * j <=? a) eqn:E.
+    + apply IH; [lia | subst r2; ring | exact Hnext |].
+      rewrite <- Hj'. apply Z.leb_le in E. subst r2. split; [nia | nia].
+    + apply IH; [lia | exact Hr2 | exact Hnext |].
+      rewrite <- Hj'. apply Z.leb_gt in E. subst r2. split; [nia | nia].
+Qed.
+
+Theorem isqrt_correct : forall l a, 1 <= l -> 0 <= a < 2 ^ l ->
+  let r := isqrt l a in r * r <= a < (r + 1) * (r + 1).
+Proof.
+  intros l a Hl Ha. unfold isqrt.
+  set (e := (l - 1) / 2).
+  assert (He : 0 <= e) by (unfold e; apply Z.div_pos; lia).
+  assert (Hle : l <= 2 * (e + 1)) by (unfold e; lia).
+  apply isqrt_loop_ok; [lia | ring | |].
+  - intros _. rewrite Z.shiftl_1_l. f_equal. lia.
+  - rewrite Z2Nat.id by lia. split; [lia|].
+    replace (0 + 2 ^ (e + 1)) with (2 ^ (e + 1)) by lia.
+    rewrite <- Z.pow_add_r by lia.
+    apply Z.lt_le_trans with (2 ^ l); [lia|].
+    apply Z.pow_le_mono_r; lia.
+Qed.
+
+(** the root is nonnegative and below 2^(e+1) *)
+
+(** ** rounding: (a + n//2)//n is round-half-up of a/n *)
+Lemma div_n_round_half_up : forall n a, 0 < n -> div_n n a = (2 * a + n) / (2 * n).
+Proof.
+  intros n a Hn. unfold div_n.
+  pose proof (Z.div_mod n 2 ltac:(lia)) as H2. pose proof (Z.mod_pos_bound n 2 ltac:(lia)) as B2.
+  set (h := n / 2) in *.
+  pose proof (Z.div_mod (a + h) n ltac:(lia)) as H1. pose proof (Z.mod_pos_bound (a + h) n Hn) as B1.
+  set (q := (a + h) / n) in *. set (m1 := (a + h) mod n) in *. set (m2 := n mod 2) in *.
+  apply Z.div_unique with (r := 2 * a + n - 2 * n * q); [|ring].
+  left. clearbody q m1 m2 h. nia.
+Qed.
+
+Theorem mean_int_round_half_up : forall x, 0 < zlen x ->
+  mean_int x = (2 * zsum x + zlen x) / (2 * zlen x).
+Proof. intros x H. unfold mean_int. exact (div_n_round_half_up (zlen x) (zsum x) H). Qed.
+
+Theorem mean_int_nearest : forall x, 0 < zlen x ->
+  2 * Z.abs (zsum x - zlen x * mean_int x) <= zlen x.
+Proof.
+  intros x H. rewrite (mean_int_round_half_up x H).
+  set (n := zlen x) in *. set (s := zsum x).
+  pose proof (Z.div_mod (2 * s + n) (2 * n) ltac:(lia)) as H1.
+  pose proof (Z.mod_pos_bound (2 * s + n) (2 * n) ltac:(lia)) as B1.
+  set (q := (2 * s + n) / (2 * n)) in *. set (m1 := (2 * s + n) mod (2 * n)) in *.
+  clearbody q m1 s n. nia.
+Qed.
+
+(** ** quantiles: index/delta arithmetic and interpolation = CPython's formulas, rounded half up *)
+Lemma round_shift : forall n A a, 0 < n -> (2 * (A * n + a) + n) / (2 * n) = A + (2 * a + n) / (2 * n).
+Proof.
+  intros n A a Hn. replace (2 * (A * n + a) + n) with (A * (2 * n) + (2 * a + n)) by ring.
+  rewrite Z.div_add_l by lia. reflexivity.
+Qed.
+
+Theorem quantile_arith_eq_python : forall (inclusive : bool) (d : list Z) (n i : Z), 0 < n ->
+  q_cut_sorted inclusive d n i = (2 * py_quantile_num inclusive d n i + n) / (2 * n).
+Proof.
+  intros inclusive d n i Hn. unfold q_cut_sorted, py_quantile_num, q_index, clampj.
+  destruct inclusive; cbn zeta.
+  - set (j := i * (zlen d - 1) / n). set (delta := (i * (zlen d - 1)) mod n).
+    set (A := nth (Z.to_nat j) d 0). set (B := nth (Z.to_nat (j + 1)) d 0).
+    destruct (delta =? 0) eqn:E.
+    + apply Z.eqb_eq in E. rewrite E.
+      replace (2 * (A * (n - 0) + B * 0) + n) with (2 * (A * n + 0) + n) by ring.
+      rewrite round_shift by lia. rewrite Z.div_small by lia. lia.
+    + rewrite div_n_round_half_up by lia.
+      replace (2 * (A * (n - delta) + B * delta) + n) with (2 * (A * n + (B - A) * delta) + n) by ring.
+      rewrite round_shift by lia. reflexivity.
+  - set (j0 := i * (zlen d + 1) / n).
+    set (j := if j0 <? 1 then 1 else if zlen d - 1 <? j0 then zlen d - 1 else j0).
+    set (delta := i * (zlen d + 1) - j * n).
+    set (A := nth (Z.to_nat (j - 1)) d 0). set (B := nth (Z.to_nat j) d 0).
+    destruct (delta =? 0) eqn:E.
+    + apply Z.eqb_eq in E. rewrite E.
+      replace (2 * (A * (n - 0) + B * 0) + n) with (2 * (A * n + 0) + n) by ring.
+      rewrite round_shift by lia. rewrite Z.div_small by lia. lia.
+    + destruct (delta =? n) eqn:E2.
+      * apply Z.eqb_eq in E2. rewrite E2.
+        replace (2 * (A * (n - n) + B * n) + n) with (2 * (B * n + 0) + n) by ring.
+        rewrite round_shift by lia. rewrite Z.div_small by lia. lia.
+      * rewrite div_n_round_half_up by lia.
+        replace (2 * (A * (n - delta) + B * delta) + n) with (2 * (A * n + (B - A) * delta) + n) by ring.
+        rewrite round_shift by lia. reflexivity.
+Qed.
+
+(** inclusive: the indices used are within the data and delta is a proper remainder *)
+Theorem quantile_inclusive_index_range : forall ld n i, 2 <= ld -> 0 < n -> 1 <= i < n ->
+  let '(j, delta) := q_index true ld n i in 0 <= j /\ j < ld - 1 /\ 0 <= delta < n /\ i * (ld - 1) = j * n + delta.
+Proof.
+  intros ld n i Hld Hn Hi. unfold q_index.
+  pose proof (Z.div_mod (i * (ld - 1)) n ltac:(lia)) as H1.
+  pose proof (Z.mod_pos_bound (i * (ld - 1)) n Hn) as B1.
+  set (j := i * (ld - 1) / n) in *. set (dl := (i * (ld - 1)) mod n) in *.
+  repeat split; try lia; nia.
+Qed.
+
+(** exclusive: clamped index in 1..ld-1 *)
+Theorem quantile_exclusive_index_range : forall ld n i, 2 <= ld -> 0 < n ->
+  let '(j, delta) := q_index false ld n i in 1 <= j <= ld - 1 /\ i * (ld + 1) = j * n + delta.
+Proof.
+  intros ld n i Hld Hn. unfold q_index, clampj.
+  destruct (i * (ld + 1) / n <? 1) eqn:E1; [lia|].
+  destruct (ld - 1 <? i * (ld + 1) / n) eqn:E2; [lia|].
+  apply Z.ltb_ge in E1. apply Z.ltb_ge in E2. lia.
+Qed.
+
+(** ** mode: the code returns the smallest mode, Python the first encountered *)
+Theorem mode_eq_python_refuted : exists x : list Z, mode 16 5 x <> py_mode x.
+Proof. exists [3; 3; 1; 1]. vm_compute. discriminate. Qed.
